@@ -76,6 +76,11 @@ pub fn cases(thorough: bool) -> Vec<Case> {
         v.push(Case { sc: Scenario { name: format!("{}: scan(disk) ∥ didOpen(buffer != disk)", file), pre: vec![], threads: vec![vec![analyze_fresh(file, disk)], vec![analyze(file, buf)]] }, file, last: buf, next: buf3, with_g: false, reference: None });
         // didOpen then didChange
         v.push(Case { sc: Scenario { name: format!("{}: scan(disk) ∥ didOpen(buffer) ; didChange(buffer')", file), pre: vec![], threads: vec![vec![analyze_fresh(file, disk)], vec![analyze(file, buf), analyze(file, buf2)]] }, file, last: buf2, next: buf3, with_g: false, reference: None });
+        // the document is closed and opened again (or opened, closed, opened) while the scan worker is busy with it
+        v.push(Case { sc: Scenario { name: format!("{}: scan(disk) ∥ didClose ; didOpen(buffer != disk)", file), pre: vec![], threads: vec![vec![analyze_fresh(file, disk)], vec![crate::e1::close(file), analyze(file, buf)]] }, file, last: buf, next: buf3, with_g: false, reference: None });
+        if thorough {
+            v.push(Case { sc: Scenario { name: format!("{}: scan(disk) ∥ didOpen(buffer) ; didClose ; didOpen(buffer')", file), pre: vec![], threads: vec![vec![analyze_fresh(file, disk)], vec![analyze(file, buf), crate::e1::close(file), analyze(file, buf2)]] }, file, last: buf2, next: buf3, with_g: false, reference: None });
+        }
         if thorough {
             // a second scan worker on another file G sharing names
             v.push(Case { sc: Scenario { name: format!("{}: scan(disk) ∥ didOpen(buffer != disk) ∥ scan(G)", file), pre: vec![], threads: vec![vec![analyze_fresh(file, disk)], vec![analyze(file, buf)], vec![analyze_fresh("ws/sub/test_g.py", G_TEXT)]] }, file, last: buf, next: buf3, with_g: true, reference: None });
@@ -258,7 +263,7 @@ pub fn run(rep: &'static Report) {
     rep.set("per_scenario", json!(per));
     rep.set("exhaustive", true);
     rep.sample(describe(&cs[1].sc));
-    rep.set("rule", "F ∈ {test file, conftest.py} × {buffer == disk, buffer != disk, didOpen followed by didChange} (thorough: plus a second scan worker on a file sharing names): EVERY schedule with ≤P preemptions of the scan worker's analyze_file_fresh(F, disk) against the editor's analyze_file(F, buffer) calls, both key placements; at quiescence the whole index must equal a fresh index that analysed the editor's last content once; then, from EVERY distinct quiescent state reached, one more analyze_file(F, buffer'') must give exactly the single-analysis state of buffer''");
+    rep.set("rule", "F ∈ {test file, conftest.py} × {buffer == disk, buffer != disk, didOpen followed by didChange, didClose followed by didOpen} (thorough: plus a second scan worker on a file sharing names): EVERY schedule with ≤P preemptions of the scan worker's analyze_file_fresh(F, disk) against the editor's analyze_file(F, buffer) calls, both key placements; at quiescence the whole index must equal a fresh index that analysed the editor's last content once; then, from EVERY distinct quiescent state reached, one more analyze_file(F, buffer'') must give exactly the single-analysis state of buffer''");
     rep.assume("the tokio layer is represented by model threads calling the same functions main.rs calls (did_open/did_change → analyze_file; scan phase 2 → analyze_file_fresh)");
 }
 
